@@ -195,7 +195,7 @@ CHECKS.update({
         text="Every string of <= 4 (thorough <= 5) symbols over a 29-symbol byte-level alphabet (one representative of each scanner class plus every trouble-maker: "
              "quotes, backslash, comment openers, NUL, invalid UTF-8, alias and superscript runes) and every sequence of <= 4 (<= 5) tokens over the 32-token "
              "value-language alphabet is passed to the real Parser.Parse (generic table) and value.New().Generate with comments and comfort on and off, on the plain "
-             "build with real goroutines; the same for n-fold repetitions of 28 openers (incl. nested closures that use names they do not declare) up to 64 KiB and for every valid <= 3-token program padded to 64 KiB with "
+             "build with real goroutines; the same for n-fold repetitions of 34 openers (incl. nested closures that use names they do not declare and postfix chains f()()().., a(1)(1).., a.m().m()..) up to 64 KiB and for every valid <= 3-token program padded to 64 KiB with "
              "blanks and comments; also every string of <= 4 (<= 5) symbols over a 22-symbol alphabet with one rune of every Unicode class the scanner's predicates "
              "tell apart (No, Nl, Nd of other scripts, letters, symbols, Zs/Zl, Mn, Cf), and 2478 constant expressions whose folding may fail (17 binary operators x "
              "12 x 12 constant operands, 30 unary/index/method forms) at each of 42 syntactic positions, and 8 programs whose constant part recurses without end. A case fails if it panics (recover), kills the process (journaled re-run), does not return (CPU/wall watchdog) or, for the 64 KiB "
